@@ -249,9 +249,20 @@ def run_driver(cx, drv, reqs, name, procs=None, gomaxprocs=0):
 def normalise(cx, rows, reqs_by_id):
     """Worker deaths are observations too: the process exited or crashed during the call."""
     good = []
+    skipped = 0
     for row in rows:
         res = row["res"]
         if res.get("k") == "done":
+            if res["status"] == "nocompile" and (str(res.get("msg", "")).startswith("warm-up:") or "context deadline exceeded" in str(res.get("msg", ""))
+                                                or "context canceled" in str(res.get("msg", ""))):
+                # the preparing evaluation of a warm source did not get through, or the request's context ended before
+                # its script was parsed (a loaded machine);
+                # the request decides nothing - a few are noted, many are Inconclusive
+                skipped += 1
+                cx.notes.append("request %s (%s %s) skipped: %s" % (row["id"], row["fn"], row["path"], str(res["msg"])[:160]))
+                if skipped > 3:
+                    raise vlib.Inconclusive("%d requests could not be prepared, e.g. %s" % (skipped, str(res["msg"])[:200]))
+                continue
             if res["status"] == "nocompile":
                 raise vlib.Inconclusive("recipe does not compile (%s %s): %s\n%s" % (
                     row["fn"], row["path"], res["msg"], reqs_by_id[row["id"]]["script"]))
